@@ -620,6 +620,11 @@ fn delta<F: Field>(beh: &Beh, pat: &str) -> F {
     }
 }
 
+fn same_bytes<T: CanonicalSerialize>(a: &T, b: &T) -> bool {
+    let (mut x, mut y) = (vec![], vec![]);
+    a.serialize_compressed(&mut x).is_ok() && b.serialize_compressed(&mut y).is_ok() && x == y
+}
+
 /// Apply one adversary move to the statement of op `adv.op`; false = not applicable.
 pub fn apply_adv<A: Adapter>(
     s: &Sess<A>,
@@ -873,7 +878,8 @@ pub fn apply_adv<A: Adapter>(
                         None => false,
                     },
                     "list_swap" => {
-                        if v.len() < 2 {
+                        // (two byte-identical proofs: the move would change nothing)
+                        if v.len() < 2 || same_bytes(&v[0], &v[1]) {
                             return false;
                         }
                         v.swap(0, 1);
@@ -887,7 +893,7 @@ pub fn apply_adv<A: Adapter>(
                         true
                     }
                     _ => {
-                        if v.len() < 2 {
+                        if v.len() < 2 || same_bytes(&v[0], &v[1]) {
                             return false;
                         }
                         v[1] = v[0].clone();
